@@ -217,8 +217,8 @@ ODD = [b"\xc2", b"\xe2\x80", b"\xff", b"\xed\xa0\x80", b"\xc2\x85", b"\xe2\x80\x
 
 def gen_status_line(rng):
     """A status line with odd whitespace / non-ASCII / undecodable bytes in every position."""
-    version = rng.choice([b"HTTP/1.1"] * 5 + [b"HTTP/1.0", b"HTTP/2.0", b"HTTP/1.1x", b"HTTP/\xd9\xa1.1", b"http/1.1", b"HTTP/1.", b"HTTP/11.1"])
-    code = rng.choice([b"200"] * 4 + [b"204", b"304", b"101", b"100", b"404", b"999", b"000", b"20", b"2000", b"2x0", b"\xd9\xa2\xd9\xa0\xd9\xa0", b"+20", b"20\xc2\xa0"])
+    version = rng.choice([b"HTTP/1.1"] * 14 + [b"HTTP/1.0", b"HTTP/1.0", b"HTTP/2.0", b"HTTP/1.1x", b"HTTP/\xd9\xa1.1", b"http/1.1", b"HTTP/1.", b"HTTP/11.1"])
+    code = rng.choice([b"200"] * 10 + [b"204", b"304", b"101", b"100", b"404", b"500", b"999", b"000", b"20", b"2000", b"2x0", b"\xd9\xa2\xd9\xa0\xd9\xa0", b"+20", b"20\xc2\xa0"])
     reason = rng.choice([b"OK", b"", b"Not Found", b"a  b", b"OK " + rng.choice(ODD), rng.choice(ODD) + b"x", b"\xc3\xa9t\xc3\xa9", b"x" * rng.randint(0, 60)])
 
     def sep(allow_empty=False):
@@ -234,7 +234,7 @@ def gen_status_line(rng):
         line += sep(rng.random() < 0.1) + reason
     if rng.random() < 0.2:
         line += sep()
-    if rng.random() < 0.1:
+    if rng.random() < 0.06:
         i = rng.randint(0, len(line))
         line = line[:i] + rng.choice(ODD) + line[i:]
     return line
